@@ -116,7 +116,8 @@ def run_property(prop, tier, seed, replay=None):
         else:
             cases = corpus_cases(mr.model) + mr.gen(rng, tier)
         # witnesses of known findings are replayed separately
-        res, meta = core.run_cases(mr.model, cases, mr.impl_env, mr.spec_needs_impl, jobs=mr.jobs)
+        res, meta = core.run_cases(mr.model, cases, mr.impl_env, mr.spec_needs_impl, jobs=mr.jobs,
+                                   timeout=1200 if tier == "quick" else 4000)
         if meta["impl_crashed"] or not meta["model_lines_ok"] or not meta["spec_lines_ok"]:
             # fall back to one process per case so that a crash is attributed to its case
             res = []
